@@ -162,11 +162,21 @@ pub mod verif_std {
             !r ==> exists|i: int| 0 <= i < v@.len() && call_ensures(f, (&#[trigger] v@[i],), false),
     { v.iter().all(f) }
 
+    pub uninterp spec fn arr_ref_of<'a, const N: usize>(s: &'a [u8]) -> &'a [u8; N];
+    pub broadcast axiom fn arr_ref_of_view<'a, const N: usize>(s: &'a [u8])
+        ensures s@.len() == N ==> (#[trigger] arr_ref_of::<N>(s))@ == s@;
+    impl<'a, const N: usize> VerifTryInto<&'a [u8; N]> for &'a [u8] {
+        type Error = std::array::TryFromSliceError;
+        open spec fn try_into_spec(self) -> Option<&'a [u8; N]> { if self@.len() == N { Some(arr_ref_of::<N>(self)) } else { None } }
+        #[verifier::external_body]
+        fn verif_try_into(self) -> (r: Result<&'a [u8; N], std::array::TryFromSliceError>) { std::convert::TryInto::try_into(self) }
+    }
+
     pub broadcast proof fn arr_ext<const N: usize>(a: [u8; N], b: [u8; N])
         ensures #[trigger] a@ == #[trigger] b@ ==> a == b
     { if a@ == b@ { assert(a =~= b); } }
     pub broadcast group verif_std_axioms {
         iter_seq_vec, iter_seq_arr4, iter_seq_refarr4, iter_seq_refvec, iter_seq_slice,
-        le32_len, lei32_len, le32_inj, lei32_inj, arr_of_view, arr_ext, vec_of_view, subrange_full,
+        le32_len, lei32_len, le32_inj, lei32_inj, arr_of_view, arr_ref_of_view, arr_ext, vec_of_view, subrange_full,
     }
 }
